@@ -85,6 +85,14 @@ fn scheduler_semantics() {
 }
 
 pub fn run() -> i32 {
+    // a simulated process is single-token: one core makes hand-offs cheap
+    crate::driver::pin_to_core(std::process::id() as usize);
+    let r = run_pinned();
+    crate::driver::unpin();
+    r
+}
+
+fn run_pinned() -> i32 {
     let t0 = crate::seams::real_now_s();
     scheduler_semantics();
     let e0 = Env::reference();
